@@ -867,7 +867,7 @@ package ast
 //@   requires writer != nil
 //@   nopanic
 //@   modifies @wstream, $allocated
-//@   ensures[C12] surfaced: (err != nil) == ($rawWErrN > old($rawWErrN))
+//@   ensures[C12] surfaced: (err != nil) == ($rawWErrN > old($rawWErrN)) && $rawWErrN >= old($rawWErrN)
 //@   ghost_exit $wS = ite(err == nil, store(old($wS), old($wN), s), old($wS))
 //@   ghost_exit $wI = old($wI)
 //@   ghost_exit $wB = old($wB)
@@ -880,7 +880,7 @@ package ast
 //@   requires w != nil
 //@   nopanic
 //@   modifies @wstream, $allocated
-//@   ensures[C12] surfaced: (err != nil) == ($rawWErrN > old($rawWErrN))
+//@   ensures[C12] surfaced: (err != nil) == ($rawWErrN > old($rawWErrN)) && $rawWErrN >= old($rawWErrN)
 //@   ghost_exit $wI = ite(err == nil, store(old($wI), old($wN), i), old($wI))
 //@   ghost_exit $wS = old($wS)
 //@   ghost_exit $wB = old($wB)
@@ -893,7 +893,7 @@ package ast
 //@   requires writer != nil
 //@   nopanic
 //@   modifies @wstream, $allocated
-//@   ensures[C12] surfaced: (err != nil) == ($rawWErrN > old($rawWErrN))
+//@   ensures[C12] surfaced: (err != nil) == ($rawWErrN > old($rawWErrN)) && $rawWErrN >= old($rawWErrN)
 //@   ghost_exit $wB = ite(err == nil, store(old($wB), old($wN), aBoolean), old($wB))
 //@   ghost_exit $wS = old($wS)
 //@   ghost_exit $wI = old($wI)
@@ -906,7 +906,7 @@ package ast
 //@   requires w != nil
 //@   nopanic
 //@   modifies @wstream, $allocated
-//@   ensures[C12] surfaced: (err != nil) == ($rawWErrN > old($rawWErrN))
+//@   ensures[C12] surfaced: (err != nil) == ($rawWErrN > old($rawWErrN)) && $rawWErrN >= old($rawWErrN)
 //@   ghost_exit $wF = ite(err == nil, store(old($wF), old($wN), f), old($wF))
 //@   ghost_exit $wS = old($wS)
 //@   ghost_exit $wI = old($wI)
@@ -1016,7 +1016,7 @@ package ast
 //@   modifies @wstream
 //@   ensures[C12] encodes: err == nil ==> $wN == old($wN) + 3 && layNodeMeta($wK, $wS, $wI, $wB, old($wN), meta)
 //@   ensures[C12] prefixkept: wPrefixKept(old($wN))
-//@   ensures[C12] errorsurfaces: ($wErrN > old($wErrN)) == (err != nil) && $wErrN >= old($wErrN)
+//@   ensures[C12] errorsurfaces: ($wErrN > old($wErrN)) == (err != nil) && $wErrN >= old($wErrN) && ($rawWErrN > old($rawWErrN)) == (err != nil) && $rawWErrN >= old($rawWErrN)
 //@ func (meta *NodeMeta) ReadMetaFrom(reader) (err)
 //@   serves C12 C20
 //@   requires meta != nil && reader != nil && $rPos >= 0
@@ -1042,7 +1042,7 @@ package ast
 //@   modifies @wstream
 //@   ensures[C12] encodes: err == nil ==> $wN == old($wN) + 4 && layArrayMapSelectorMeta($wK, $wS, $wI, $wB, old($wN), meta)
 //@   ensures[C12] prefixkept: wPrefixKept(old($wN))
-//@   ensures[C12] errorsurfaces: ($wErrN > old($wErrN)) == (err != nil) && $wErrN >= old($wErrN)
+//@   ensures[C12] errorsurfaces: ($wErrN > old($wErrN)) == (err != nil) && $wErrN >= old($wErrN) && ($rawWErrN > old($rawWErrN)) == (err != nil) && $rawWErrN >= old($rawWErrN)
 //@ func (meta *ArrayMapSelectorMeta) ReadMetaFrom(reader) (err)
 //@   serves C12 C20
 //@   requires meta != nil && reader != nil && $rPos >= 0
@@ -1068,7 +1068,7 @@ package ast
 //@   modifies @wstream
 //@   ensures[C12] encodes: err == nil ==> $wN == old($wN) + 10 && layAssigmentMeta($wK, $wS, $wI, $wB, old($wN), meta)
 //@   ensures[C12] prefixkept: wPrefixKept(old($wN))
-//@   ensures[C12] errorsurfaces: ($wErrN > old($wErrN)) == (err != nil) && $wErrN >= old($wErrN)
+//@   ensures[C12] errorsurfaces: ($wErrN > old($wErrN)) == (err != nil) && $wErrN >= old($wErrN) && ($rawWErrN > old($rawWErrN)) == (err != nil) && $rawWErrN >= old($rawWErrN)
 //@ func (meta *AssigmentMeta) ReadMetaFrom(reader) (err)
 //@   serves C12 C20
 //@   requires meta != nil && reader != nil && $rPos >= 0
@@ -1094,7 +1094,7 @@ package ast
 //@   modifies @wstream
 //@   ensures[C12] encodes: err == nil ==> $wN == old($wN) + 9 && layExpressionMeta($wK, $wS, $wI, $wB, old($wN), meta)
 //@   ensures[C12] prefixkept: wPrefixKept(old($wN))
-//@   ensures[C12] errorsurfaces: ($wErrN > old($wErrN)) == (err != nil) && $wErrN >= old($wErrN)
+//@   ensures[C12] errorsurfaces: ($wErrN > old($wErrN)) == (err != nil) && $wErrN >= old($wErrN) && ($rawWErrN > old($rawWErrN)) == (err != nil) && $rawWErrN >= old($rawWErrN)
 //@ func (meta *ExpressionMeta) ReadMetaFrom(reader) (err)
 //@   serves C12 C20
 //@   requires meta != nil && reader != nil && $rPos >= 0
@@ -1120,7 +1120,7 @@ package ast
 //@   modifies @wstream
 //@   ensures[C12] encodes: err == nil ==> $wN == old($wN) + 10 && layExpressionAtomMeta($wK, $wS, $wI, $wB, old($wN), meta)
 //@   ensures[C12] prefixkept: wPrefixKept(old($wN))
-//@   ensures[C12] errorsurfaces: ($wErrN > old($wErrN)) == (err != nil) && $wErrN >= old($wErrN)
+//@   ensures[C12] errorsurfaces: ($wErrN > old($wErrN)) == (err != nil) && $wErrN >= old($wErrN) && ($rawWErrN > old($rawWErrN)) == (err != nil) && $rawWErrN >= old($rawWErrN)
 //@ func (meta *ExpressionAtomMeta) ReadMetaFrom(reader) (err)
 //@   serves C12 C20
 //@   requires meta != nil && reader != nil && $rPos >= 0
@@ -1146,7 +1146,7 @@ package ast
 //@   modifies @wstream
 //@   ensures[C12] encodes: err == nil ==> $wN == old($wN) + 5 && layFunctionCallMeta($wK, $wS, $wI, $wB, old($wN), meta)
 //@   ensures[C12] prefixkept: wPrefixKept(old($wN))
-//@   ensures[C12] errorsurfaces: ($wErrN > old($wErrN)) == (err != nil) && $wErrN >= old($wErrN)
+//@   ensures[C12] errorsurfaces: ($wErrN > old($wErrN)) == (err != nil) && $wErrN >= old($wErrN) && ($rawWErrN > old($rawWErrN)) == (err != nil) && $rawWErrN >= old($rawWErrN)
 //@ func (meta *FunctionCallMeta) ReadMetaFrom(reader) (err)
 //@   serves C12 C20
 //@   requires meta != nil && reader != nil && $rPos >= 0
@@ -1172,7 +1172,7 @@ package ast
 //@   modifies @wstream
 //@   ensures[C12] encodes: err == nil ==> $wN == old($wN) + 8 && layRuleEntryMeta($wK, $wS, $wI, $wB, old($wN), meta)
 //@   ensures[C12] prefixkept: wPrefixKept(old($wN))
-//@   ensures[C12] errorsurfaces: ($wErrN > old($wErrN)) == (err != nil) && $wErrN >= old($wErrN)
+//@   ensures[C12] errorsurfaces: ($wErrN > old($wErrN)) == (err != nil) && $wErrN >= old($wErrN) && ($rawWErrN > old($rawWErrN)) == (err != nil) && $rawWErrN >= old($rawWErrN)
 //@ func (meta *RuleEntryMeta) ReadMetaFrom(reader) (err)
 //@   serves C12 C20
 //@   requires meta != nil && reader != nil && $rPos >= 0
@@ -1198,7 +1198,7 @@ package ast
 //@   modifies @wstream
 //@   ensures[C12] encodes: err == nil ==> $wN == old($wN) + 5 && layThenExpressionMeta($wK, $wS, $wI, $wB, old($wN), meta)
 //@   ensures[C12] prefixkept: wPrefixKept(old($wN))
-//@   ensures[C12] errorsurfaces: ($wErrN > old($wErrN)) == (err != nil) && $wErrN >= old($wErrN)
+//@   ensures[C12] errorsurfaces: ($wErrN > old($wErrN)) == (err != nil) && $wErrN >= old($wErrN) && ($rawWErrN > old($rawWErrN)) == (err != nil) && $rawWErrN >= old($rawWErrN)
 //@ func (meta *ThenExpressionMeta) ReadMetaFrom(reader) (err)
 //@   serves C12 C20
 //@   requires meta != nil && reader != nil && $rPos >= 0
@@ -1224,7 +1224,7 @@ package ast
 //@   modifies @wstream
 //@   ensures[C12] encodes: err == nil ==> $wN == old($wN) + 4 && layThenScopeMeta($wK, $wS, $wI, $wB, old($wN), meta)
 //@   ensures[C12] prefixkept: wPrefixKept(old($wN))
-//@   ensures[C12] errorsurfaces: ($wErrN > old($wErrN)) == (err != nil) && $wErrN >= old($wErrN)
+//@   ensures[C12] errorsurfaces: ($wErrN > old($wErrN)) == (err != nil) && $wErrN >= old($wErrN) && ($rawWErrN > old($rawWErrN)) == (err != nil) && $rawWErrN >= old($rawWErrN)
 //@ func (meta *ThenScopeMeta) ReadMetaFrom(reader) (err)
 //@   serves C12 C20
 //@   requires meta != nil && reader != nil && $rPos >= 0
@@ -1250,7 +1250,7 @@ package ast
 //@   modifies @wstream
 //@   ensures[C12] encodes: err == nil ==> $wN == old($wN) + 6 && layVariableMeta($wK, $wS, $wI, $wB, old($wN), meta)
 //@   ensures[C12] prefixkept: wPrefixKept(old($wN))
-//@   ensures[C12] errorsurfaces: ($wErrN > old($wErrN)) == (err != nil) && $wErrN >= old($wErrN)
+//@   ensures[C12] errorsurfaces: ($wErrN > old($wErrN)) == (err != nil) && $wErrN >= old($wErrN) && ($rawWErrN > old($rawWErrN)) == (err != nil) && $rawWErrN >= old($rawWErrN)
 //@ func (meta *VariableMeta) ReadMetaFrom(reader) (err)
 //@   serves C12 C20
 //@   requires meta != nil && reader != nil && $rPos >= 0
@@ -1276,7 +1276,7 @@ package ast
 //@   modifies @wstream
 //@   ensures[C12] encodes: err == nil ==> $wN == old($wN) + 4 && layWhenScopeMeta($wK, $wS, $wI, $wB, old($wN), meta)
 //@   ensures[C12] prefixkept: wPrefixKept(old($wN))
-//@   ensures[C12] errorsurfaces: ($wErrN > old($wErrN)) == (err != nil) && $wErrN >= old($wErrN)
+//@   ensures[C12] errorsurfaces: ($wErrN > old($wErrN)) == (err != nil) && $wErrN >= old($wErrN) && ($rawWErrN > old($rawWErrN)) == (err != nil) && $rawWErrN >= old($rawWErrN)
 //@ func (meta *WhenScopeMeta) ReadMetaFrom(reader) (err)
 //@   serves C12 C20
 //@   requires meta != nil && reader != nil && $rPos >= 0
@@ -1301,8 +1301,8 @@ package ast
 //@   modifies @wstream
 //@   ensures[C12] encodes: err == nil ==> $wN == old($wN) + 4 + len(meta.ArgumentASTIDs) && $wK[old($wN)] == 1 && $wS[old($wN)] == meta.AstID && $wK[old($wN)+1] == 1 && $wS[old($wN)+1] == meta.GrlText && $wK[old($wN)+2] == 1 && $wS[old($wN)+2] == meta.Snapshot && layIDs($wK, $wS, $wI, old($wN) + 3, meta.ArgumentASTIDs)
 //@   ensures[C12] prefixkept: wPrefixKept(old($wN))
-//@   ensures[C12] errorsurfaces: ($wErrN > old($wErrN)) == (err != nil) && $wErrN >= old($wErrN)
-//@   invariant@1 $wN == old($wN) + 4 + $i && $wErrN == old($wErrN) && wPrefixKept(old($wN))
+//@   ensures[C12] errorsurfaces: ($wErrN > old($wErrN)) == (err != nil) && $wErrN >= old($wErrN) && ($rawWErrN > old($rawWErrN)) == (err != nil) && $rawWErrN >= old($rawWErrN)
+//@   invariant@1 $wN == old($wN) + 4 + $i && $wErrN == old($wErrN) && $rawWErrN == old($rawWErrN) && wPrefixKept(old($wN))
 //@   invariant@1 $wK[old($wN)] == 1 && $wS[old($wN)] == meta.AstID && $wK[old($wN)+1] == 1 && $wS[old($wN)+1] == meta.GrlText && $wK[old($wN)+2] == 1 && $wS[old($wN)+2] == meta.Snapshot && $wK[old($wN)+3] == 2 && $wI[old($wN)+3] == len(meta.ArgumentASTIDs)
 //@   invariant@1 forall k int :: 0 <= k && k < $i ==> $wK[old($wN)+4+k] == 1 && $wS[old($wN)+4+k] == meta.ArgumentASTIDs[k]
 //@ macro func kindsArgumentListMeta(K array[int]int, I array[int]int, p int) bool { return K[p] == 1 && K[p+1] == 1 && K[p+2] == 1 && K[p+3] == 2 && (forall k int :: 0 <= k && k < I[p+3] ==> K[p+4+k] == 1) }
@@ -1329,8 +1329,8 @@ package ast
 //@   modifies @wstream
 //@   ensures[C12] encodes: err == nil ==> $wN == old($wN) + 4 + len(meta.ThenExpressionIDs) && $wK[old($wN)] == 1 && $wS[old($wN)] == meta.AstID && $wK[old($wN)+1] == 1 && $wS[old($wN)+1] == meta.GrlText && $wK[old($wN)+2] == 1 && $wS[old($wN)+2] == meta.Snapshot && layIDs($wK, $wS, $wI, old($wN) + 3, meta.ThenExpressionIDs)
 //@   ensures[C12] prefixkept: wPrefixKept(old($wN))
-//@   ensures[C12] errorsurfaces: ($wErrN > old($wErrN)) == (err != nil) && $wErrN >= old($wErrN)
-//@   invariant@1 $wN == old($wN) + 4 + $i && $wErrN == old($wErrN) && wPrefixKept(old($wN))
+//@   ensures[C12] errorsurfaces: ($wErrN > old($wErrN)) == (err != nil) && $wErrN >= old($wErrN) && ($rawWErrN > old($rawWErrN)) == (err != nil) && $rawWErrN >= old($rawWErrN)
+//@   invariant@1 $wN == old($wN) + 4 + $i && $wErrN == old($wErrN) && $rawWErrN == old($rawWErrN) && wPrefixKept(old($wN))
 //@   invariant@1 $wK[old($wN)] == 1 && $wS[old($wN)] == meta.AstID && $wK[old($wN)+1] == 1 && $wS[old($wN)+1] == meta.GrlText && $wK[old($wN)+2] == 1 && $wS[old($wN)+2] == meta.Snapshot && $wK[old($wN)+3] == 2 && $wI[old($wN)+3] == len(meta.ThenExpressionIDs)
 //@   invariant@1 forall k int :: 0 <= k && k < $i ==> $wK[old($wN)+4+k] == 1 && $wS[old($wN)+4+k] == meta.ThenExpressionIDs[k]
 //@ macro func kindsThenExpressionListMeta(K array[int]int, I array[int]int, p int) bool { return K[p] == 1 && K[p+1] == 1 && K[p+2] == 1 && K[p+3] == 2 && (forall k int :: 0 <= k && k < I[p+3] ==> K[p+4+k] == 1) }
@@ -1355,7 +1355,7 @@ package ast
 //@ extern func (m Meta) WriteMetaTo(writer) (err)
 //@   nopanic
 //@   modifies @wstream
-//@   ensures ($wErrN > old($wErrN)) == (err != nil) && $wErrN >= old($wErrN)
+//@   ensures ($wErrN > old($wErrN)) == (err != nil) && $wErrN >= old($wErrN) && ($rawWErrN > old($rawWErrN)) == (err != nil) && $rawWErrN >= old($rawWErrN)
 //@ extern func (m Meta) ReadMetaFrom(reader) (err)
 //@   nopanic
 //@   modifies *, @rstream
@@ -1374,15 +1374,15 @@ package ast
 //@   requires forall k string :: has(cat.Data, k) ==> cat.Data[k] != nil
 //@   nopanic
 //@   modifies @wstream
-//@   ensures[C12] errorsurfaces: ($wErrN > old($wErrN)) == (err != nil)
-//@   invariant@1 $wErrN == old($wErrN)
-//@   invariant@2 $wErrN == old($wErrN)
-//@   invariant@3 $wErrN == old($wErrN)
-//@   invariant@4 $wErrN == old($wErrN)
-//@   invariant@5 $wErrN == old($wErrN)
-//@   invariant@6 $wErrN == old($wErrN)
-//@   invariant@7 $wErrN == old($wErrN)
-//@   invariant@8 $wErrN == old($wErrN)
+//@   ensures[C12] errorsurfaces: ($wErrN > old($wErrN)) == (err != nil) && ($rawWErrN > old($rawWErrN)) == (err != nil)
+//@   invariant@1 $wErrN == old($wErrN) && $rawWErrN == old($rawWErrN)
+//@   invariant@2 $wErrN == old($wErrN) && $rawWErrN == old($rawWErrN)
+//@   invariant@3 $wErrN == old($wErrN) && $rawWErrN == old($rawWErrN)
+//@   invariant@4 $wErrN == old($wErrN) && $rawWErrN == old($rawWErrN)
+//@   invariant@5 $wErrN == old($wErrN) && $rawWErrN == old($rawWErrN)
+//@   invariant@6 $wErrN == old($wErrN) && $rawWErrN == old($rawWErrN)
+//@   invariant@7 $wErrN == old($wErrN) && $rawWErrN == old($rawWErrN)
+//@   invariant@8 $wErrN == old($wErrN) && $rawWErrN == old($rawWErrN)
 
 // LoadKnowledgeBaseFromReader: a nil error means the catalogue was read completely; with overwrite=false an existing entry is untouched
 // ReadCatalogFromReader is checked: no failed read is ever swallowed (ghost counter of failed primitive reads), and a nil
@@ -1431,7 +1431,7 @@ package ast
 //@   modifies @wstream
 //@   ensures[C12] encodes: err == nil ==> $wN == old($wN) + 7 && $wK[old($wN)] == 1 && $wS[old($wN)] == meta.AstID && $wK[old($wN)+1] == 1 && $wS[old($wN)+1] == meta.GrlText && $wK[old($wN)+2] == 1 && $wS[old($wN)+2] == meta.Snapshot
 //@        && $wK[old($wN)+3] == 2 && $wI[old($wN)+3] == meta.ValueType && $wK[old($wN)+4] == 2 && $wI[old($wN)+4] == len(meta.ValueBytes) && $wK[old($wN)+5] == 5 && $wK[old($wN)+6] == 3 && $wB[old($wN)+6] == meta.IsNil
-//@   ensures[C12] errorsurfaces: ($wErrN > old($wErrN)) == (err != nil) && $wErrN >= old($wErrN)
+//@   ensures[C12] errorsurfaces: ($wErrN > old($wErrN)) == (err != nil) && $wErrN >= old($wErrN) && ($rawWErrN > old($rawWErrN)) == (err != nil) && $rawWErrN >= old($rawWErrN)
 //@ macro func kindsConstantMeta(K array[int]int, p int) bool { return K[p] == 1 && K[p+1] == 1 && K[p+2] == 1 && K[p+3] == 2 && K[p+4] == 2 && K[p+5] == 5 && K[p+6] == 3 }
 //@ func (meta *ConstantMeta) ReadMetaFrom(reader) (err)
 //@   serves C12 C20
@@ -2546,7 +2546,7 @@ package ast
 //@   opt alloc=1
 //@   requires libWF(lib) && writer != nil && varIdsDistinct()
 //@   modifies *, @wstream, $catAddN, $catAddOK, $allocated
-//@   ensures[C12] errorsurfaces: ($wErrN > old($wErrN)) == (err != nil)
+//@   ensures[C12] errorsurfaces: ($wErrN > old($wErrN)) == (err != nil) && ($rawWErrN > old($rawWErrN)) == (err != nil)
 // an instance exists exactly for a (name, version) the library holds; it is the blueprint's clone under a NEW clone table
 //@ extern func (e *KnowledgeBase) IsIdentical(that) (r)
 //@   nopanic
